@@ -420,6 +420,8 @@ def mk_const(v, w, s):
 
 def lin_of(st, v):
     """Lin of a VInt (converting a bit-vector when it is a recognisable pattern)"""
+    if not isinstance(v, VInt):
+        raise Unanalysable("integer arithmetic on a value the analysis does not track: %r" % (v,))
     if v.lin is not None:
         return st.norm(v.lin) if st.pc.subst else v.lin
     return bv_to_lin(st, v)
